@@ -31,6 +31,9 @@ def rv(x):
     return toz(x)
 
 
+CURRENT = None
+
+
 class Case:
     def __init__(self, case, info, qtimeout=None):
         self.case = case
@@ -46,9 +49,12 @@ class Case:
         self.validated = 0
         self.qtimeout = qtimeout or (10000 if self.tier == "quick" else 60000)
         self._witness_cache = {}
+        self._found_keys = set()
         CTX.hard_reset()
         CTX.timeout = self.qtimeout
         install.install()
+        global CURRENT
+        CURRENT = self
 
     # ------------------------------------------------------------------
     def count_paths(self, paths):
@@ -62,25 +68,34 @@ class Case:
             self._witness_cache[key] = CTX.check(list(assumptions), timeout=min(self.qtimeout, 4000))
         return self._witness_cache[key]
 
-    def oblige(self, name, assumptions, negated, on_model=None, inputs=None, timeout=None, lemmas=(), sample=None, nice=True, quat_groups=()):
+    def oblige(self, name, assumptions, negated, on_model=None, inputs=None, timeout=None, lemmas=(), sample=None, nice=True, quat_groups=(),
+               key=None, keep=()):
         """obligation: assumptions => not negated.   negated: formula describing a violation.
-        on_model(env) -> candidate dict (key, replay[, known_id]) or None"""
+        on_model(env) -> candidate dict (key, replay[, known_id]) or None.
+        key: if a counterexample candidate with this key was already found in this case, the obligation is skipped
+        (one witness per key is enough; keeps the check fast on a broken tree).
+        keep: input variables that stay symbolic in the partial-instantiation search."""
         t = time.time()
+        if key is not None and key in self._found_keys:
+            self.obligations.append({"name": name, "status": "skipped", "note": f"a counterexample for {key} was already found in this case"})
+            return "skipped"
+        full_to = timeout or self.qtimeout
         q = list(assumptions) + list(lemmas) + [negated]
-        res, s, backend = CTX.solve(q, timeout or self.qtimeout)
+        res, s, backend = CTX.solve(q, full_to, guard=True, mode="quick")
+        env = None
+        if res == "unknown" and inputs and on_model is not None:
+            # model search by partial concretisation before the long symbolic attempt (finding models is slower than refuting)
+            env = self.instantiate_search(q, inputs, quat_groups, keep=keep)
+            if env is not None:
+                res, backend = "sat", "instantiation"
+        if res == "unknown":
+            res, s, backend = CTX.solve(q, full_to, guard=True, mode="rest")
         o = {"name": name, "status": res, "backend": backend, "time_s": None}
         if res == "unsat":
             w = self.witness(list(assumptions))
             o["witness"] = w
             if w == "unsat":
                 o["note"] = "antecedent unsatisfiable (infeasible path) - not counted as non-trivial"
-        env = None
-        if res == "unknown" and inputs and on_model is not None:
-            env = self.instantiate_search(q, inputs, quat_groups)
-            if env is not None:
-                res = "sat"
-                o["status"] = "sat"
-                o["backend"] = "instantiation+" + backend
         if res == "sat":
             if env is None and nice and inputs:
                 env = self.nice_model(q, inputs)
@@ -92,6 +107,9 @@ class Case:
                 if cand is not None:
                     cand.setdefault("obligation", name)
                     self.candidates.append(cand)
+                    self._found_keys.add(cand.get("key"))
+                    if key is not None:
+                        self._found_keys.add(key)
                 else:
                     o["status"] = "unknown"
                     o["note"] = "model rejected by harness (outside claim)"
@@ -133,6 +151,10 @@ class Case:
         return goal, merged, failed
 
     def env_of(self, solver, exprs):
+        from symnum.core import EnvModel
+
+        if isinstance(solver, EnvModel):
+            return complete_env({k: v for k, v in solver.items() if "!" not in k}, exprs)
         m = solver.model()
         env = {}
         for d in m.decls():
@@ -156,10 +178,10 @@ class Case:
                 return self.env_of(s, q)
         return None
 
-    def instantiate_search(self, q, inputs, quat_groups=(), tries=6, timeout=5000):
+    def instantiate_search(self, q, inputs, quat_groups=(), tries=2, timeout=2000, keep=()):
         """counterexample search by partial concretisation: input variables get concrete rationals (unit quaternions from a
-        list of rational unit quaternions), the abstracted-function variables stay symbolic and the solver decides the rest.
-        Returns env or None.  Only ever produces candidates (replayed before being reported)."""
+        list of rational unit quaternions), the abstracted-function variables (and the `keep` inputs, in the first phase) stay
+        symbolic and the solver decides the rest.  Returns env or None.  Only ever produces candidates (replayed before reported)."""
         import random
 
         rng = random.Random(self.info.get("seed", 0) * 7919 + len(self.obligations))
@@ -171,31 +193,111 @@ class Case:
             if all(z3.is_const(z) and z.decl().kind() == z3.Z3_OP_UNINTERPRETED for z in zs):
                 groups.append(zs)
                 qvars.update(z.get_id() for z in zs)
+        keep_ids = set()
+        for v in keep:
+            z = toz(v) if not z3.is_expr(v) else v
+            keep_ids.add(z.get_id())
         zs_in = []
         for v in inputs:
             z = toz(v) if not z3.is_expr(v) else v
             if z3.is_const(z) and z.decl().kind() == z3.Z3_OP_UNINTERPRETED and z.get_id() not in qvars:
                 zs_in.append(z)
         vals = [Fraction(k, 2) for k in range(-6, 7)] + [Fraction(k, 3) for k in (-4, -2, -1, 1, 2, 4)]
-        for _ in range(tries):
+        # phase 0: float screening - evaluate the query under random concrete inputs with the real semantics of the abstracted
+        # functions (CTX.evalf); a hit is only a candidate and is replayed on the plain library like every other model
+        def draw():
             sub = []
             for g in groups:
                 uq = list(random.Random(rng.random()).choice(UNIT_QUATS))
                 rng.shuffle(uq)
                 uq = [x * rng.choice((1, -1)) for x in uq]
-                sub += [(z, rv(x)) for z, x in zip(g, uq)]
+                sub += [(z, x) for z, x in zip(g, uq)]
             for z in zs_in:
-                sub.append((z, rv(rng.choice(vals))))
-            inst = [z3.simplify(z3.substitute(e, *sub)) for e in full]
-            if any(z3.is_false(e) for e in inst):
-                continue
-            res, s, _ = CTX.solve(inst, timeout, with_axioms=False)
-            if res == "sat":
-                env = self.env_of(s, inst)
-                for z, x in sub:
-                    env[str(z)] = val_to_float(x)
-                return env
+                sub.append((z, rng.choice(vals)))
+            return sub
+
+        for _ in range(40):
+            sub = draw()
+            env = {str(z): float(x) for z, x in sub}
+            try:
+                complete_env(env, q)
+                if all(CTX.evalf(e, env) is True or CTX.evalf(e, env) == True for e in q):  # noqa: E712
+                    return env
+            except Exception:  # noqa
+                break
+        phases = []
+        if keep_ids:
+            phases.append(("keep", 1))
+        else:
+            phases.append(("half", 1))
+        phases.append(("all", tries))
+        for mode, n in phases:
+            for _ in range(n):
+                sub = []
+                for g in groups:
+                    uq = list(random.Random(rng.random()).choice(UNIT_QUATS))
+                    rng.shuffle(uq)
+                    uq = [x * rng.choice((1, -1)) for x in uq]
+                    sub += [(z, rv(x)) for z, x in zip(g, uq)]
+                for z in zs_in:
+                    if mode == "keep" and z.get_id() in keep_ids:
+                        continue
+                    if mode == "half" and rng.random() < 0.5:
+                        continue
+                    sub.append((z, rv(rng.choice(vals))))
+                if not sub:
+                    continue
+                inst = [z3.simplify(z3.substitute(e, *sub)) for e in full]
+                if any(z3.is_false(e) for e in inst):
+                    continue
+                res, s, _ = CTX.solve(inst, timeout, with_axioms=False)
+                if res == "sat":
+                    env = self.env_of(s, inst)
+                    for z, x in sub:
+                        env[str(z)] = val_to_float(x)
+                    return env
         return None
+
+    def seed_envs(self, inputs, quat_groups=(), n=2, fixed=None):
+        """generic concrete inputs (small rationals / rational unit quaternions) that satisfy CTX.pre: their paths are explored first"""
+        import random
+
+        rng = random.Random(12345 + self.info.get("seed", 0))
+        qvars = {}
+        for g in quat_groups:
+            zs = [toz(v) if not z3.is_expr(v) else v for v in g]
+            if all(z3.is_const(z) and z.decl().kind() == z3.Z3_OP_UNINTERPRETED for z in zs):
+                qvars[tuple(str(z) for z in zs)] = zs
+        names = []
+        for v in inputs:
+            z = toz(v) if not z3.is_expr(v) else v
+            if z3.is_const(z) and z.decl().kind() == z3.Z3_OP_UNINTERPRETED:
+                names.append(str(z))
+        qnames = {nm for g in qvars for nm in g}
+        vals = [Fraction(k, 4) for k in range(-11, 12) if k != 0]
+        out = []
+        for _ in range(40):
+            env = {}
+            for g in qvars:
+                uq = list(rng.choice(UNIT_QUATS[1:]))
+                rng.shuffle(uq)
+                for nm, x in zip(g, uq):
+                    env[nm] = float(x * rng.choice((1, -1)))
+            for nm in names:
+                if nm not in qnames:
+                    env[nm] = float(rng.choice(vals))
+            if fixed:
+                env.update(fixed)
+            try:
+                e2 = dict(env)
+                complete_env(e2, CTX.pre)
+                if all(bool(CTX.evalf(c, e2)) for c in CTX.pre):
+                    out.append(env)
+            except Exception:  # noqa
+                pass
+            if len(out) >= n:
+                break
+        return out
 
     def note_inconclusive(self, name, why):
         self.obligations.append({"name": name, "status": "unknown", "note": why})
